@@ -9,7 +9,14 @@
 //!     injected scriptlets (as the set of `+js(..)` argument strings whose `try{}` block is present)
 //!     and generichide vs `hostname_cosmetic_resources`.
 //! Oracle (independent of Coq): a covers-based reference working from the rule text and the psl
-//! answer (contract-checked), with its own label splitting, CSS key scanner and JSON rendering.
+//! answer (contract-checked), with its own label splitting, CSS key scanner and JSON rendering;
+//! which lines are rules at all is stated from the rule text (`ref_accepted`: an exception with a
+//! negated location is a double negation, generic exceptions / scriptlets / actions are not rules;
+//! the body's validity is taken from the same body behind one positive location) and compared with
+//! the crate's parser; class/id-keyed generic rules (unscoped and negation-only hide rules) are
+//! asked for through `hidden_class_id_selectors` with the host's exceptions.
+//! Generators: the general grammar (`gen_rules`) and lists around lines whose location list has
+//! only negations / mixes positive and negated locations (`gen_neg_rules`), asked on 3-4 hosts.
 use adblock::cosmetic_filter_cache::ProceduralOrActionFilter;
 use adblock::filters::cosmetic::verif as cv;
 use adblock::filters::cosmetic::{CosmeticFilter, CosmeticFilterMask, CosmeticFilterOperator};
@@ -152,6 +159,146 @@ fn gen_rules(r: &mut Rng, page: &str) -> Vec<String> {
     v
 }
 
+// ------------------------------------------------------------------------------ negation-only lists
+const VALID_SELECTORS: &[&str] = &[".ad", ".banner", "#top", "div.ad", ".ad > a", "[href]", ".ad:hover", "div", ".x1", "a[href^=\"https://ads.\"]", "#x\\:y"];
+const OTHER_SUFFIXES: &[&str] = &["com", "net", "org", "co.uk", "co.jp", "de", "github.io"];
+
+/// (host without its public suffix, public suffix) from the psl answer; for a host without a dot
+/// in its domain the host itself.
+fn split_suffix(host: &str) -> (String, String) {
+    let (a, b) = get_host_domain(host);
+    let dom = host.get(a..b).unwrap_or(host);
+    match dom.split_once('.') {
+        Some((_, ps)) if host.len() > ps.len() + 1 => (host[..host.len() - ps.len() - 1].to_string(), ps.to_string()),
+        _ => (host.to_string(), String::new()),
+    }
+}
+
+/// One negated location. Mostly names that cover `page` (label-aligned suffixes of the host for a
+/// hostname, of the host without its public suffix for an entity), sometimes names that do not.
+fn gen_neg_location(r: &mut Rng, page: &str, entity: bool) -> String {
+    let (hw, _) = split_suffix(page);
+    let base = if entity { hw.as_str() } else { page };
+    let labels: Vec<&str> = base.split('.').collect();
+    let n = labels.len();
+    let name = match r.below(10) {
+        0..=5 => labels[r.below(n)..].join("."),
+        6 => label_cut(r, page),
+        7 => format!("x{}", base),
+        8 => {
+            let o = r.pick(HOSTS);
+            if entity { split_suffix(o).0 } else { o.to_string() }
+        }
+        _ => base.to_string(),
+    };
+    format!("~{}{}", name, if entity { ".*" } else { "" })
+}
+
+fn gen_neg_body(r: &mut Rng, unhide: bool) -> (String, &'static str) {
+    match r.below(10) {
+        0..=3 => (r.pick(VALID_SELECTORS).to_string(), "hide"),
+        4 | 5 => (if unhide && r.chance(1, 4) { "+js()".to_string() } else { format!("+js({})", r.pick(SCRIPTS)) }, "scriptlet"),
+        6 | 7 => (
+            match r.below(4) {
+                0 => format!("{}:style({})", r.pick(VALID_SELECTORS), r.pick(STYLES)),
+                1 => format!("{}:remove()", r.pick(VALID_SELECTORS)),
+                2 => format!("{}:remove-attr(onclick)", r.pick(VALID_SELECTORS)),
+                _ => format!("{}:remove-class(advert)", r.pick(VALID_SELECTORS)),
+            },
+            "procedural",
+        ),
+        8 => (r.pick(SELECTORS).to_string(), "hide"),
+        _ => (".ad".to_string(), "hide"),
+    }
+}
+
+/// A cosmetic line whose location list consists only of negations (`mixed` = false) or of
+/// negations and at least one positive location; all combinations of ~hostname and ~entity.*.
+fn gen_neg_rule(r: &mut Rng, page: &str, mixed: bool) -> (String, &'static str, bool) {
+    let n = r.range(1, 3);
+    // the combination of kinds is drawn first so that every subset shape is equally likely
+    let combo = r.below(3); // 0: hostnames only, 1: entities only, 2: both kinds
+    let mut locs: Vec<String> = (0..n)
+        .map(|i| {
+            let entity = match combo { 0 => false, 1 => true, _ => if n == 1 { r.chance(1, 2) } else { i % 2 == 1 } };
+            gen_neg_location(r, page, entity)
+        })
+        .collect();
+    if mixed {
+        let k = r.range(1, 2);
+        for _ in 0..k {
+            let mut l = gen_location(r, page);
+            if let Some(p) = l.strip_prefix('~') { l = p.to_string() }
+            let at = r.below(locs.len() + 1);
+            locs.insert(at, l);
+        }
+    }
+    let unhide = r.chance(2, 5);
+    let (body, kind) = gen_neg_body(r, unhide);
+    (format!("{}{}{}", locs.join(","), if unhide { "#@#" } else { "##" }, body), kind, unhide)
+}
+
+/// 1-5 negation-only / mixed lines plus context: a positive or unscoped line with the same body as
+/// one of them, lines of the general grammar, optionally a generichide exception.
+fn gen_neg_rules(r: &mut Rng, page: &str, stats: &mut Vec<String>) -> Vec<String> {
+    let n = r.range(1, 5);
+    let mut v: Vec<String> = vec![];
+    for _ in 0..n {
+        let mixed = r.chance(1, 4);
+        let (line, kind, unhide) = gen_neg_rule(r, page, mixed);
+        stats.push(format!("{}_{}_{}", if mixed { "mixedneg_line" } else { "negonly_line" }, if unhide { "exception" } else { "rule" }, kind));
+        if r.chance(1, 3) {
+            // the same body scoped positively / unscoped / excepted, to see the two interact
+            if let Some((_, _, after)) = split_line(&line) {
+                let h = if r.chance(1, 2) { page.to_string() } else { label_cut(r, page) };
+                // (a blanket `+js()` only exists as an exception)
+                v.push(match if after == "+js()" { 1 } else { r.below(4) } {
+                    0 => format!("##{}", after),
+                    1 => format!("{}#@#{}", h, after),
+                    2 => format!("{}.*##{}", split_suffix(page).0, after),
+                    _ => format!("{}##{}", h, after),
+                });
+            }
+        }
+        v.push(line);
+    }
+    for _ in 0..r.below(3) {
+        v.push(gen_rule(r, page));
+    }
+    if r.chance(1, 6) {
+        let h = label_cut(r, page).trim_start_matches("www.").to_string();
+        if !h.is_empty() {
+            v.push(format!("@@||{}^$generichide", h));
+        }
+    }
+    // order is part of the input
+    if r.chance(1, 2) {
+        let k = r.below(v.len());
+        v.rotate_left(k);
+    }
+    v
+}
+
+/// Hosts to ask about: the page host (covered by the names drawn from it), a subdomain of it, the
+/// same name under another public suffix (covered by the entities only), an unrelated host.
+fn neg_hosts(r: &mut Rng, page: &str) -> Vec<String> {
+    let (hw, ps) = split_suffix(page);
+    let mut v = vec![page.to_string()];
+    let other: Vec<&str> = OTHER_SUFFIXES.iter().copied().filter(|s| *s != ps).collect();
+    v.push(format!("{}.{}", hw, r.pick(&other)));
+    if r.chance(1, 2) {
+        v.push(format!("{}{}", r.pick(&["www.", "x.y.", "m."]), page));
+    }
+    loop {
+        let o = r.pick(HOSTS);
+        if split_suffix(o).0.split('.').last() != hw.split('.').last() {
+            v.push(o.to_string());
+            break;
+        }
+    }
+    v
+}
+
 fn gen_page_host(r: &mut Rng) -> String {
     let h = r.pick(HOSTS);
     match r.below(6) {
@@ -274,6 +421,100 @@ fn parse_text(line: &str) -> Option<TextRule> {
     Some(TextRule { pos, neg, unhide, content })
 }
 
+/// Location list of a cosmetic line: (negated, entity, ascii name) per non-empty part; None when a
+/// name is not convertible to ASCII.
+fn text_locations(before: &str) -> Option<Vec<(bool, bool, String)>> {
+    let mut v = vec![];
+    for part in before.split(',') {
+        if part.is_empty() {
+            continue;
+        }
+        let (n, p) = match part.strip_prefix('~') { Some(p) => (true, p), None => (false, part) };
+        let (e, p) = match p.strip_suffix(".*") { Some(p) => (true, p), None => (false, p) };
+        v.push((n, e, to_ascii(p)?));
+    }
+    Some(v)
+}
+
+fn split_line(line: &str) -> Option<(&str, bool, &str)> {
+    if line.starts_with("@@") || line.starts_with('|') {
+        return None;
+    }
+    if let Some(i) = line.find("#@#") {
+        Some((&line[..i], true, &line[i + 3..]))
+    } else if let Some(i) = line.find("##") {
+        Some((&line[..i], false, &line[i + 2..]))
+    } else {
+        None
+    }
+}
+
+#[derive(Debug, Clone, Copy, PartialEq)]
+enum BodyKind {
+    Hide,
+    Script,
+    Action,
+}
+fn body_kind(after: &str) -> BodyKind {
+    let a = after.trim();
+    if a.starts_with("+js(") && a.ends_with(')') {
+        BodyKind::Script
+    } else if a.contains(":style(") || a.contains(":remove-attr(") || a.contains(":remove-class(") || a.ends_with(":remove()") {
+        BodyKind::Action
+    } else {
+        BodyKind::Hide
+    }
+}
+
+/// Which cosmetic lines of the generator's grammar are rules at all, stated from the rule text
+/// (None: not a cosmetic line). The scoping part is stated here:
+///   * every location name must have an ASCII (IDNA) form;
+///   * the part after the separator must not be empty;
+///   * an exception (`#@#`) needs a location list and none of its locations may be negated
+///     (an exception for "everywhere but X" is a double negation);
+///   * a scriptlet (`+js(..)`) and an action (`:style(..)`, `:remove..`) need a location list
+///     (negated locations count: `~a.com##+js(x)` is a rule, it injects nowhere and excepts on a.com).
+/// The validity of the part after the separator does not depend on the location list: it is taken
+/// from the same body behind the single positive location `x.test` (metamorphic baseline).
+fn ref_accepted(line: &str) -> Option<bool> {
+    let line = line.trim();
+    let (before, unhide, after) = split_line(line)?;
+    let Some(locs) = text_locations(before) else { return Some(false) };
+    if after.trim().is_empty() {
+        return Some(false);
+    }
+    let negated = locs.iter().any(|(n, _, _)| *n);
+    if unhide && (before.is_empty() || negated) {
+        return Some(false);
+    }
+    if body_kind(after) != BodyKind::Hide && before.is_empty() {
+        return Some(false);
+    }
+    let baseline = format!("x.test{}{}", if unhide { "#@#" } else { "##" }, after);
+    Some(matches!(parse_filter(&baseline, false, Default::default()), Ok(ParsedFilter::Cosmetic(_))))
+}
+
+/// For the statistics: is `host` covered by a negated entity / a negated hostname of a line whose
+/// location list consists only of negations?
+fn negonly_cover(lines: &[String], host: &str, dom: &str) -> (bool, bool, bool) {
+    let s = s_host(host, dom);
+    let (mut any, mut by_ent, mut by_host) = (false, false, false);
+    for l in lines {
+        let Some((before, _, _)) = split_line(l.trim()) else { continue };
+        let Some(locs) = text_locations(before) else { continue };
+        if locs.is_empty() || locs.iter().any(|(n, _, _)| !*n) {
+            continue;
+        }
+        any = true;
+        for (_, e, name) in &locs {
+            if s.contains(name) {
+                if *e { by_ent = true } else { by_host = true }
+            }
+        }
+    }
+    (any, by_ent, by_host)
+}
+
 /// S host of DESIGN.md §4 C16, from the psl answer `dom`, by label splitting.
 fn s_host(host: &str, dom: &str) -> BTreeSet<String> {
     let mut s = BTreeSet::new();
@@ -313,9 +554,10 @@ fn reference(lines: &[String], perms: &[u8], req: &dyn Fn(&str) -> u8, host: &st
     let mut gh = false;
     let mut granted: BTreeMap<String, u8> = BTreeMap::new(); // union of the permissions of covering +js rules
     for (li, l) in lines.iter().enumerate() {
-        match parse_filter(l, false, Default::default()) {
-            Ok(ParsedFilter::Network(_)) => {
-                if let Some(h) = l.strip_prefix("@@||").and_then(|x| x.strip_suffix("^$generichide")) {
+        match ref_accepted(l) {
+            None => {
+                // not a cosmetic line of the generator's grammar: the generichide exception
+                if let (Ok(ParsedFilter::Network(_)), Some(h)) = (parse_filter(l, false, Default::default()), l.strip_prefix("@@||").and_then(|x| x.strip_suffix("^$generichide"))) {
                     let h = to_ascii(h).unwrap_or_default();
                     if !h.is_empty() && (host == h || host.ends_with(&format!(".{}", h))) {
                         gh = true;
@@ -323,8 +565,8 @@ fn reference(lines: &[String], perms: &[u8], req: &dyn Fn(&str) -> u8, host: &st
                 }
                 continue;
             }
-            Ok(ParsedFilter::Cosmetic(_)) => {}
-            Err(_) => continue, // rejected lines contribute nothing (C11)
+            Some(false) => continue, // rejected lines contribute nothing
+            Some(true) => {}
         }
         let Some(t) = parse_text(l) else { continue };
         let covers_pos = t.pos.iter().any(|x| s.contains(x));
@@ -599,6 +841,43 @@ fn run_case(lines: &[String], perms: &[u8], url: &str) -> Option<Run> {
     if got != want {
         failures.push(format!("url_cosmetic_resources gives {:?}, the covers-based specification gives {:?}", got, want));
     }
+    // which lines are rules at all: the statement from the rule text vs the crate's parser
+    for (l, p) in lines.iter().zip(perms.iter()) {
+        if let Some(want_acc) = ref_accepted(l) {
+            let parsed = parse_filter(l, false, opts(*p));
+            let got_acc = matches!(parsed, Ok(ParsedFilter::Cosmetic(_)));
+            if got_acc != want_acc {
+                failures.push(format!("line {:?}: the parser says {} but by the rule text the line is {}", l,
+                    match &parsed { Ok(ParsedFilter::Cosmetic(_)) => "accepted (cosmetic rule)".to_string(), Ok(ParsedFilter::Network(_)) => "network rule".to_string(), Err(e) => format!("rejected ({:?})", e) },
+                    if want_acc { "a rule" } else { "not a rule" }));
+            }
+        }
+    }
+    // second stage of generic hiding: unscoped and negated-only hide rules with a class/id key are
+    // handed out by hidden_class_id_selectors, minus the selectors excepted for this host
+    let mut keyed: BTreeSet<String> = BTreeSet::new();
+    let (mut classes, mut ids): (BTreeSet<String>, BTreeSet<String>) = Default::default();
+    for l in lines {
+        if ref_accepted(l) != Some(true) {
+            continue;
+        }
+        let Some(t) = parse_text(l) else { continue };
+        if let (true, false, Content::Hide(sel)) = (t.pos.is_empty(), t.unhide, &t.content) {
+            if let Some(k) = ref_key(sel) {
+                keyed.insert(sel.clone());
+                let mut cs = k.chars();
+                match cs.next() {
+                    Some('.') => { classes.insert(cs.collect()); }
+                    _ => { ids.insert(cs.collect()); }
+                }
+            }
+        }
+    }
+    let got_keyed: BTreeSet<String> = engine.hidden_class_id_selectors(classes.iter(), ids.iter(), &res.exceptions).into_iter().collect();
+    let want_keyed: BTreeSet<String> = keyed.iter().filter(|s| !want.exc.contains(*s)).cloned().collect();
+    if got_keyed != want_keyed {
+        failures.push(format!("hidden_class_id_selectors(classes {:?}, ids {:?}) gives {:?}; the generic class/id rules not excepted for {:?} are {:?}", classes, ids, got_keyed, host, want_keyed));
+    }
 
     // --- Coq expressions
     let sets = |x: &std::collections::HashSet<String>| -> Vec<String> {
@@ -623,7 +902,8 @@ fn run_case(lines: &[String], perms: &[u8], url: &str) -> Option<Run> {
     );
     let specific = !res.procedural_actions.is_empty() || !res.exceptions.is_empty() || !present.is_empty()
         || res.hide_selectors.iter().any(|s| !d.misc_generic_selectors.contains(s));
-    let got_json = json!({"perm_withheld": perm_withheld, "perm_injected": perm_injected, "hide_selectors": sets(&res.hide_selectors), "procedural_actions": sets(&res.procedural_actions),
+    let (negonly_any, negonly_by_entity, negonly_by_hostname) = negonly_cover(lines, &host, &dom);
+    let got_json = json!({"negonly_any": negonly_any, "negonly_by_entity": negonly_by_entity, "negonly_by_hostname": negonly_by_hostname, "keyed_generic": got_keyed.iter().cloned().collect::<Vec<_>>(), "perm_withheld": perm_withheld, "perm_injected": perm_injected, "hide_selectors": sets(&res.hide_selectors), "procedural_actions": sets(&res.procedural_actions),
         "exceptions": sets(&res.exceptions), "scripts": present, "generichide": res.generichide});
     Some(Run {
         host: host.clone(),
@@ -667,7 +947,7 @@ fn main() {
     let mut r = Rng::new(a.seed);
     let mut cs = Cases::new(&a.out, "C17_Model C16_Model");
     let mut sm = Summary::default();
-    sm.rule = "lists of 1-10 cosmetic rules (0-3 locations each: hosts, label-aligned and non-aligned suffixes, entity forms name.*, negations, public suffixes, IDN; ## and #@#; hide / :style / :remove / :remove-attr / :remove-class / +js(args) / blanket #@#+js(); duplicates) plus optional @@||host^$generichide, x page hosts from a 23-host universe (multi-label public suffixes co.uk, co.jp, github.io; depth up to 6; bare public suffix; localhost; IP; trailing dot; IDN) with www./x.y. prefixes; resources loaded through Engine::use_resources (3 template scriptlets with aliases); non-trivial = labels case on a dotted host, bins case with a non-empty hide/unhide bin, resources case where something host-specific (selector outside the misc store, procedural action, exception, scriptlet) is returned".into();
+    sm.rule = "(a) lists built around lines whose location list consists ONLY of negations, in all combinations of negated hostnames (~a.com) and negated entities (~shop.*), 1-3 locations, names drawn from the page host (label-aligned suffixes of the host / of the host without its public suffix) or not covering it; ## and #@#; hide, +js(..) scriptlet, blanket #@#+js(), :style/:remove/:remove-attr/:remove-class; plus mixed lists (positive and negated locations), the same body scoped positively / unscoped / excepted, lines of the general grammar and an optional generichide exception; each list asked about on 3-4 hosts: the page host, a subdomain, the same name under another public suffix (covered by negated entities only), an unrelated host; which lines are rules at all is stated from the rule text (exception with a negated location = double negation, generic exception / scriptlet / action rejected) and compared with the parser, hidden_class_id_selectors is asked for the class/id-keyed generic rules. (b) lists of 1-10 cosmetic rules (0-3 locations each: hosts, label-aligned and non-aligned suffixes, entity forms name.*, negations, public suffixes, IDN; ## and #@#; hide / :style / :remove / :remove-attr / :remove-class / +js(args) / blanket #@#+js(); duplicates) plus optional @@||host^$generichide, x page hosts from a 23-host universe (multi-label public suffixes co.uk, co.jp, github.io; depth up to 6; bare public suffix; localhost; IP; trailing dot; IDN) with www./x.y. prefixes; resources loaded through Engine::use_resources (3 template scriptlets with aliases); non-trivial = labels case on a dotted host, bins case with a non-empty hide/unhide bin, resources case where something host-specific (selector outside the misc store, procedural action, exception, scriptlet) is returned".into();
 
     // every host of the universe once for the label functions, then random cases
     let n = 700 * a.scale;
@@ -691,6 +971,56 @@ fn main() {
         if run.got["procedural_actions"].as_array().map(|x| !x.is_empty()).unwrap_or(false) { cs.stat("procedural_nonempty") }
         for (e, nt) in run.exprs {
             cs.case(e, desc.clone(), nt);
+        }
+    }
+    // ---------------- lists built around lines whose location list consists only of negations
+    // (and mixed lists), each asked about on 3-4 hosts
+    const NEG_HOSTS: &[&str] = &["example.com", "sub.example.com", "a.b.example.com", "example.co.uk", "www.example.co.uk", "x.foo.net", "foo.net", "bar.example.org", "b.example.github.io", "bücher.example", "example.co.jp", "localhost"];
+    let n_neg = 110 * a.scale;
+    for i in 0..n_neg {
+        let page = NEG_HOSTS[if i < NEG_HOSTS.len() { i } else { r.below(NEG_HOSTS.len()) }].to_string();
+        let mut line_stats = vec![];
+        let rules = gen_neg_rules(&mut r, &page, &mut line_stats);
+        cs.stat("negonly_list");
+        for k in &line_stats {
+            cs.stat(k);
+        }
+        for l in &rules {
+            if let Some((before, unhide, after)) = split_line(l) {
+                if let Some(locs) = text_locations(before) {
+                    if !locs.is_empty() && locs.iter().all(|(n, _, _)| *n) {
+                        let (e, h) = (locs.iter().any(|(_, e, _)| *e), locs.iter().any(|(_, e, _)| !*e));
+                        cs.stat(match (h, e) { (true, true) => "negonly_locations_hostnames_and_entities", (true, false) => "negonly_locations_hostnames", _ => "negonly_locations_entities" });
+                        cs.stat(match ref_accepted(l) { Some(true) => "negonly_line_is_a_rule", _ if unhide => "negonly_line_rejected_double_negation", _ => "negonly_line_rejected_other" });
+                        if ref_accepted(l) == Some(true) && body_kind(after) != BodyKind::Hide {
+                            // documented in CosmeticFilter::hidden_generic_rule: no generic counterpart
+                            cs.stat("observation_negonly_scriptlet_or_action_rule_applies_on_no_host");
+                        }
+                    }
+                }
+            }
+        }
+        let perms: Vec<u8> = rules.iter().map(|l| if l.contains("+js(p") && r.chance(3, 4) { r.below(4) as u8 } else if r.chance(1, 8) { r.below(4) as u8 } else { 0 }).collect();
+        for host in neg_hosts(&mut r, &page) {
+            let url = format!("https://{}/page", host);
+            let Some(run) = run_case(&rules, &perms, &url) else { cs.stat("url_error"); continue };
+            sm.oracle_evaluations += 4;
+            let desc = json!({"rules": rules, "permissions": perms, "url": url, "host": run.host, "domain": run.dom, "impl": run.got});
+            for f in &run.failures {
+                sm.failure(None, f, desc.clone());
+            }
+            cs.stat("negonly_host_query");
+            cs.stat(match (run.got["negonly_by_entity"] == json!(true), run.got["negonly_by_hostname"] == json!(true)) {
+                (true, true) => "negonly_host_covered_by_negated_entity_and_hostname",
+                (true, false) => "negonly_host_covered_by_negated_entity",
+                (false, true) => "negonly_host_covered_by_negated_hostname",
+                _ => "negonly_host_covered_by_neither",
+            });
+            if run.got["exceptions"].as_array().map(|x| !x.is_empty()).unwrap_or(false) { cs.stat("negonly_exceptions_nonempty") }
+            if run.got["keyed_generic"].as_array().map(|x| !x.is_empty()).unwrap_or(false) { cs.stat("negonly_class_id_generic_returned") }
+            for (e, nt) in run.exprs {
+                cs.case(e, desc.clone(), nt);
+            }
         }
     }
     cs.finish();
